@@ -28,6 +28,14 @@ Layers run here (DESIGN.md section 1.2 and "C20"):
     (syntax name, section) in the quick tier; compared: the output string, resp. the error class.  The values of the
     built-in tables come from coq/gen/GenConfigVals.v, regenerated from emmet/config.py on every run.
 
+      - documented effect (harness/cfgeffect_util.py): the two expand clauses above compare expand() with expand() or
+        look for a non-empty marker, so they cannot see a CONSUMER of an option that prefers a less specific layer again
+        (a flag derived from the syntax name or-ed with the merged option; `options.get(k) or <built-in default>` that
+        fires for a defined empty value).  For every option with a documented visible effect the output must show the
+        effect that the documentation states for the value the oracle's merge makes effective -- hard-coded documented
+        facts, no second run of the implementation; values of the documented type, the explicit empty / False / 0 /
+        [] / {} value always among them; element / property names come from snippets the case itself supplies.
+
 THE TABLE (exhaustive, `exhaustive: true`): for each abbreviation type, every syntax name of
   known    SYNTAXES[type]
   cross    the syntaxes of the other type (not syntaxes of this type; table keys like 'sass' apply as written)
@@ -40,6 +48,14 @@ by temporarily replacing emmet.config.DEFAULT_CONFIG / SYNTAX_CONFIG with copies
 side only; restored after every case).  Two probes per cell: a fresh key no table uses, and a key whose effect
 is visible through expand.  In addition the "natural" table: unpatched tables, all 2^3 subsets of the caller's
 layers redefining real built-in keys of every built-in definedness pattern.
+
+THE EFFECT TABLE (gen_effects, gen_empty_winner; unpatched tables unless a syntax-defaults entry is planted): syntax
+names = every known syntax of the type, 'xhtml', one unknown name (thorough, markup: every name of THE TABLE) x every entry of
+cfgeffect_util.EFFECTS x winning layer in {global type, global syntax, call} x every value of the entry, the other
+layers silent / all less specific caller layers defining another value / a planted syntax-defaults entry defining another
+value (thorough: all three; quick: one drawn from ctx.rng), plus "no caller layer" (the real built-in default or the real
+syntax default is effective) and "planted syntax default alone".  empty-winner: the visible probes of all three sections
+with the EMPTY STRING in the winning caller layer above marker-carrying layers.
 
 WHAT "UNKNOWN SYNTAX" MEANS (decided by running the real code, see report in known_findings.d/config.json):
 SYNTAX_CONFIG and the global config are ONE name space shared by type names and syntax names (same in upstream
@@ -66,6 +82,7 @@ import common
 from common import enc_str, enc_list, Reader
 import config_util as cu
 import cfgexpand_util as xu
+import cfgeffect_util as fx
 
 SECTIONS = cu.SECTIONS                     # ('variables', 'snippets', 'options')
 LAYERS = ['Default', 'TypeDefaults', 'SyntaxDefaults', 'TypeOverride', 'SyntaxOverride', 'User']
@@ -435,7 +452,9 @@ def observe_expand(tb, case, ty, syn, expected, installed, patches, fails):
     # the winning layer's marker is what the output shows
     sec, key = case.get('sec'), case.get('key')
     vis = None
-    if sec is not None and key is not None and out[0] == 'ok' and isinstance(out[1], str):
+    if case.get('effect') is not None:
+        vis = judge_effect(case, ty, syn, expected, abbr, out, fails)
+    elif sec is not None and key is not None and out[0] == 'ok' and isinstance(out[1], str):
         e = expected[sec].get(key)
         if e is not None and isinstance(e[0], str):
             win = [mk for mk in MARKERS if mk in e[0]]
@@ -455,6 +474,33 @@ def observe_expand(tb, case, ty, syn, expected, installed, patches, fails):
             if shown:
                 fails.append(('expand', 'expand(%r) = %r shows %r although no layer defines %s[%r]' % (abbr, out[1], shown, sec, key)))
     return {'out': out, 'visible': vis, 'rich': rich[:3]}
+
+
+def judge_effect(case, ty, syn, expected, abbr, out, fails):
+    """The DOCUMENTED EFFECT clause (harness/cfgeffect_util.py): the output shows what the documentation states for the
+    value the oracle's own merge makes effective -- judged against hard-coded documented facts, not against another
+    run of the implementation."""
+    e = fx.BY_NAME.get(case['effect'])
+    if e is None:
+        return 'effect-unknown-entry'
+    win = expected['options'].get(e.key)
+    if win is None:
+        return 'effect-undefined'
+
+    def eff(name):
+        x = expected['options'].get(name)
+        return x[0] if x is not None else None
+    if out[0] != 'ok' or not isinstance(out[1], str):
+        # every value planted here is of the documented type of its option: expand has no reason to fail
+        fails.append(('effect', 'expand(%r) with options[%r] = %r effective (from %s) gives %r' % (
+            abbr, e.key, win[0], LAYERS[win[1]], out)))
+        return 'effect-raises'
+    verdict, bad = fx.judge(e, win[0], fx.family(ty, syn), eff, out[1])
+    if bad:
+        fails.append(('effect', 'expand(%r) = %r does not show the documented effect of options[%r] = %r, the value of the '
+                      'most specific defining layer %s (layers defining it %s): output %s' % (
+                          abbr, out[1], e.key, win[0], LAYERS[win[1]], win[2], '; '.join(bad))))
+    return 'effect-' + verdict
 
 
 # ------------------------------------------------------------------ the table
@@ -594,6 +640,108 @@ def gen_aliased(tb):
                             abbr=vis_abbr.get('options'))
                 c['class'] = class_of(tb, ty, syn)
                 cases.append(c)
+    return cases
+
+
+EFFECT_UNKNOWN_QUICK = 'zzz'
+
+
+def effect_names(tb, ty, thorough):
+    """Syntax names of the effect table: quick = every known syntax of the type, the pseudo syntaxes that are no type
+    name ('xhtml') and one unknown name; thorough = every name of THE TABLE for markup (the stylesheet type keeps the
+    quick list: each of its cases is evaluated inside Coq in the thorough tier)."""
+    names = names_for(tb, ty)
+    if thorough and ty != 'stylesheet':
+        return names
+    types = set(tb.base['SYNTAXES'])
+    return [(s, c) for s, c in names if c == 'known' or (c == 'pseudo' and s not in types) or s == EFFECT_UNKNOWN_QUICK]
+
+
+def effect_case(ty, syn, cls, e, assign, variant):
+    """assign: {layer index (2 = planted syntax defaults, 3 = global type, 4 = global syntax, 5 = call): value}."""
+    user = copy.deepcopy(e.comp)
+    glob_, patches = {}, []
+    for li in sorted(assign):
+        v = copy.deepcopy(assign[li])
+        if li == 2:
+            patches.append((1, syn, 'options', e.key, v))
+        elif li == 3:
+            glob_.setdefault(ty, {}).setdefault('options', {})[e.key] = v
+        elif li == 4:
+            glob_.setdefault(syn, {}).setdefault('options', {})[e.key] = v
+        else:
+            user.setdefault('options', {})[e.key] = v
+    c = mk_case('effect', ty, syn, user, glob_, patches, sec='options', key=e.key, abbr=e.abbr, effect=e.name,
+                bits=[0, 0] + [int(li in assign) for li in (2, 3, 4, 5)], variant=variant)
+    c['class'] = cls
+    return c
+
+
+def gen_effects(ctx, tb, thorough):
+    """Options with a DOCUMENTED visible effect (cfgeffect_util.EFFECTS), real values of the documented type including
+    the explicit empty / False / 0 / [] / {} value, on the unpatched built-in tables (so the real built-in default and
+    the real syntax defaults, e.g. jsx.enabled of jsx/svelte or stylesheet.after of sass, lie below).
+    For every (syntax name, option, winning layer L in {global type, global syntax, call}, value v): L defines v and
+      alone    no other caller layer defines the option
+      stacked  every less specific caller layer defines it with another value
+      planted  a planted syntax-defaults entry defines it with another value (known names only)
+    plus: no caller layer at all, and a planted syntax-defaults entry alone.  Thorough: all variants; quick: every
+    (syntax name, option, L, v) with ONE variant drawn from ctx.rng."""
+    rng = ctx.rng
+    cases = []
+    for ty in tb.base['SYNTAXES']:
+        for syn, cls in effect_names(tb, ty, thorough):
+            fam = fx.family(ty, syn)
+            for e in fx.EFFECTS[ty]:
+                if fam not in e.families:
+                    continue
+                k = len(e.values)
+                plantable = cls != 'unknown'
+                cases.append(effect_case(ty, syn, cls, e, {}, 'none'))
+                if plantable:
+                    for vi in (range(k) if thorough else [rng.randrange(k)]):
+                        cases.append(effect_case(ty, syn, cls, e, {2: e.values[vi]}, 'planted-alone'))
+                for L in (3, 4, 5):
+                    if L == 4 and syn == ty:
+                        continue          # one and the same dict of the global config
+                    for vi in range(k):
+                        variants = ['alone'] + (['stacked'] if L > 3 else []) + (['planted'] if plantable else [])
+                        for variant in (variants if thorough else [rng.choice(variants)]):
+                            assign = {L: e.values[vi]}
+                            if variant == 'stacked':
+                                for j in range(3, L):
+                                    if not (j == 4 and syn == ty):
+                                        assign[j] = e.values[(vi + L - j) % k]
+                            elif variant == 'planted':
+                                assign[2] = e.values[(vi + 1) % k]
+                            cases.append(effect_case(ty, syn, cls, e, assign, variant))
+    return cases
+
+
+def gen_empty_winner(tb, thorough):
+    """The most specific defining layer holds the EMPTY STRING ("defined, and empty" is a definition like any other):
+    visible probes of every section (option, snippet, variable), winner = each caller layer, once alone above a planted
+    built-in default and once above every less specific layer, all of which carry their markers.  Judged by the marker
+    clause (no marker of a beaten layer may show) and by the flattened-configuration clause."""
+    cases = []
+    for ty in tb.base['SYNTAXES']:
+        for syn, cls in effect_names(tb, ty, thorough):
+            for sec in SECTIONS:
+                vis = VISIBLE.get((ty, sec))
+                if not vis:
+                    continue
+                for L in (3, 4, 5):
+                    if L == 4 and syn == ty:
+                        continue
+                    for below in ('builtin-default', 'all'):
+                        bits = [i == L or (i == 0 if below == 'builtin-default' else i < L) for i in range(6)]
+                        if cls == 'unknown':
+                            bits[2] = False
+                        c = cell_case(ty, syn, sec, bits, vis[0], vis[2], abbr=vis[1], kind='empty-winner')
+                        where = c['user'] if L == 5 else c['global'][ty if L == 3 else syn]
+                        where[sec][vis[0]] = ''
+                        c['class'] = cls
+                        cases.append(c)
     return cases
 
 
@@ -756,7 +904,10 @@ def summarize(tb, case, res, rng, with_model):
     kind = case['kind']
     ty, syn = resolved_names(tb, case)
     sm = {'failures': res['failures'][:4], 'fatal': res['fatal'], 'expand': res['expand'], 'patterns': res['patterns'],
-          'cell_pat': None, 'sample': None, 'unknown_snap': None, 'model': None, 'spec': [], 'xmodel': None}
+          'cell_pat': None, 'sample': None, 'unknown_snap': None, 'model': None, 'spec': [], 'xmodel': None, 'effect_win': None}
+    if kind == 'effect':
+        e = (res['expected'] or {}).get('options', {}).get(case['key'])
+        sm['effect_win'] = (e[1], not e[0], e[2]) if e else None
     if kind.startswith('cell'):
         sec, key = case['sec'], case['key']
         e = (res['expected'] or {}).get(sec, {}).get(key)
@@ -928,16 +1079,28 @@ def run_cases(ctx, tb, model, cases, label, pool, xmodel=None):
     c['spec_lookups'] += n_spec
 
 
+EFFECT_KINDS = ('effect', 'empty-winner')
+
+
 def coq_expand_tie(ctx, thorough):
     """The stylesheet cases of the run through the FULL expand model, evaluated inside Coq (the stylesheet pipeline
-    model uses floats): all of them in the thorough tier, a seeded sample that covers every (syntax name, section)
-    in the quick tier."""
+    model uses floats): all of them in the thorough tier (of the effect table a sample per syntax name and option), a
+    seeded sample that covers every (syntax name, section) in the quick tier."""
     items = XSTATE['coq']
     xc = expand_corr(ctx)
     if not items:
         return
     if thorough or os.environ.get('C20_EXPAND_ALL') == '1':
-        chosen = list(range(len(items)))
+        # every case of the tables of the property; of the effect table (whose subject is the ORACLE's documented-effect
+        # clause, every case of which the oracle judges) a seeded sample covering every (syntax name, option, kind)
+        chosen = [n for n, it in enumerate(items) if it[0]['kind'] not in EFFECT_KINDS]
+        groups = {}
+        for n, (case, sm, term) in enumerate(items):
+            if case['kind'] in EFFECT_KINDS:
+                groups.setdefault((case['type'], case['syntax'], case.get('key'), case['kind']), []).append(n)
+        for k in sorted(groups, key=repr):
+            chosen += ctx.rng.sample(groups[k], min(4, len(groups[k])))
+        chosen.sort()
     else:
         groups = {}
         for n, (case, sm, term) in enumerate(items):
@@ -994,7 +1157,21 @@ def cover_case(ctx, tb, case, sm):
         if (n < 6 and sum(case['bits']) >= 3 and cls != 'known' and n % 2 == (kind == 'cell-visible')) or \
                 (n < 10 and kind == 'cell-visible' and sum(case['bits']) >= 4 and ty == 'stylesheet'):
             ctx.sample({'case': case, 'impl': sm['sample'], 'expand': sm['expand']['out'] if sm['expand'] else None}, limit=12)
+    elif kind == 'effect':
+        verdict = sm['expand']['visible'] if sm['expand'] else 'not-expanded'
+        ctx.cover('effect:%s:%s:%s' % (ty, case['key'], verdict))
+        ctx.cover('effect-variant:%s' % case.get('variant'))
+        win = sm.get('effect_win')
+        if win is not None:
+            ctx.cover('effect-winner:%s:%s' % (LAYERS[win[0]], 'empty-or-false-value' if win[1] else 'other-value'))
+            if win[2].count('1') >= 2:
+                ctx.nontrivial((kind, ty, syn, case['effect'], win[2], json.dumps([case['user'], case['global'], case['patches']],
+                                                                                     sort_keys=True)))
+        if verdict == 'effect-witness' and len([x for x in ctx.cov['samples'] if 'effect' in x]) < 3 and win and win[1]:
+            ctx.sample({'effect': case['effect'], 'case': case, 'expand': sm['expand']['out']}, limit=16)
     else:
+        if kind == 'empty-winner':
+            ctx.cover('empty-winner:%s:%s:%s' % (ty, case['sec'], ''.join(map(str, case['bits']))))
         multi = 0
         for sec in SECTIONS:
             for pat, n in (sm['patterns'].get(sec) or {}).items():
@@ -1024,6 +1201,8 @@ def run(ctx):
     corpus = load_corpus()
     aliased = gen_aliased(tb)
     rnd = gen_random(ctx, tb, n_rand)
+    effects = gen_effects(ctx, tb, thorough)      # after gen_random: the random stream of earlier runs is unchanged
+    effects += gen_empty_winner(tb, thorough)
     ctx.cov['rule'] = (
         'EXHAUSTIVE table: both abbreviation types x every syntax name (known: SYNTAXES[type]; cross: syntaxes of the other '
         'type; pseudo: keys of SYNTAX_CONFIG that are no listed syntax %r; unknown: %r) x {variables, snippets, options} x '
@@ -1032,13 +1211,26 @@ def run(ctx):
         'syntax-defaults layer cannot exist: 2^5), once with a fresh probe key and once with a key whose effect is visible in '
         'expand() output %r; observed on Config(user, global) (all three sections, whole dicts) and through '
         'emmet.expand(abbr, config, global_config).  Natural table: unpatched tables, 2^3 subsets of caller layers redefining '
-        'real built-in keys of every built-in definedness pattern.  Aliased configurations: the caller\'s dictionaries share objects '
+        'real built-in keys of every built-in definedness pattern.  EFFECT table (documented-effect oracle, independent of '
+        'the implementation: harness/cfgeffect_util.py): syntax names %r x %d markup + %d stylesheet options with a documented '
+        'visible effect %r x winning layer {global type, global syntax, call} x every value of the documented type '
+        '(the explicit empty / False / 0 / [] / {} value always included) with the other layers silent | all less specific '
+        'caller layers defining another value | a planted syntax-defaults entry defining another value (%s), plus no '
+        'caller layer at all (real built-in / real syntax default effective) and a planted syntax default alone; on the '
+        'unpatched tables, so the real syntax defaults (jsx.enabled of jsx/svelte, output.selfClosingStyle of xml/xsl/xhtml, '
+        'markup.attributes of jsx/vue, stylesheet.after/between of sass/stylus) are among the beaten layers; the output must '
+        'show the documented effect of the effective value (and equal the flattened run).  Empty-winner cells: visible probe '
+        'of every section with the EMPTY STRING in the winning caller layer above marker-carrying layers.  Aliased configurations: the caller\'s dictionaries share objects '
         'with each other or ARE the live built-in tables (user section is DEFAULT_CONFIG[section], global config is '
         'SYNTAX_CONFIG, the user config is also a global layer).  Plus corpus and %d random configurations (absent/unknown '
         'type, unrelated names and sections, random patches).  A case is non-trivial when at least two layers define a judged '
         'key (a real precedence decision); distinct by (type, syntax, section, key, subset) resp. by configuration.'
         % (sorted(k for k in tb.base['SYNTAX_CONFIG'] if not any(k in v for v in tb.base['SYNTAXES'].values())),
-           UNKNOWN_NAMES, {'%s/%s' % k: v[:2] for k, v in VISIBLE.items()}, n_rand))
+           UNKNOWN_NAMES, {'%s/%s' % k: v[:2] for k, v in VISIBLE.items()},
+           {ty: [x for x, _ in effect_names(tb, ty, thorough)] for ty in tb.base['SYNTAXES']},
+           len(fx.MARKUP_EFFECTS), len(fx.CSS_EFFECTS), sorted(set(e.key for es in fx.EFFECTS.values() for e in es)),
+           'all three variants' if thorough else 'one variant per (name, option, layer, value) drawn from the seeded rng',
+           n_rand))
     with multiprocessing.Pool(common.NPROC) as pool:
         if tb.ids is None:
             xmodel = None
@@ -1046,6 +1238,7 @@ def run(ctx):
         run_cases(ctx, tb, model, table, 'table', pool, xmodel)
         run_cases(ctx, tb, model, natural, 'natural', pool, xmodel)
         run_cases(ctx, tb, model, aliased, 'aliased', pool, xmodel)
+        run_cases(ctx, tb, model, effects, 'effects', pool, xmodel)
         run_cases(ctx, tb, model, rnd, 'random', pool, xmodel)
     if xmodel is not None:
         coq_expand_tie(ctx, thorough)
@@ -1063,7 +1256,8 @@ def run(ctx):
         'types': list(tb.base['SYNTAXES']),
         'syntax_names': {ty: [s for s, _ in names_for(tb, ty)] for ty in tb.base['SYNTAXES']},
         'sections': list(SECTIONS), 'layer_subsets': 64, 'probes_per_cell': 2, 'table_cells': len(table),
-        'natural_cells': len(natural), 'aliased_cases': len(aliased)}
+        'natural_cells': len(natural), 'aliased_cases': len(aliased),
+        'effect_cases': len(effects), 'effect_entries': [e.name for es in fx.EFFECTS.values() for e in es]}
     ctx.assumptions += [
         'values of options/snippets/variables are abstracted to ids in the model comparison (the property is about WHICH '
         'layer wins); the oracle compares the implementation\'s values themselves (identity or type-strict structure)',
@@ -1074,6 +1268,11 @@ def run(ctx):
         'a name is an unknown syntax when it is neither listed in SYNTAXES nor a key of SYNTAX_CONFIG; type names used as '
         'syntax names are keys of the shared table and obey the precedence clause as written (see module docstring)',
         'the stylesheet pipeline never reads variables: stylesheet x variables cells are observed on Config only',
+        'documented-effect clause: the stated effects are those of the Emmet documentation for the option values (hard-coded in '
+        'harness/cfgeffect_util.py with their source); stated for the HTML formatter (every markup syntax except haml, pug, '
+        'slim), for the indentation formatters only where all three share the effect, and for the stylesheet formatter; an '
+        'effective value outside the documented type, or a template value of comment.before/after, has no stated effect '
+        '(then only the flattened-configuration clause judges the output)',
         'expand() adds text=None to the caller\'s config (markup.parse save/restore): C08\'s subject, ignored by the purity '
         'comparison on the expand path; Config(user, global) itself is compared strictly',
     ]
